@@ -427,7 +427,9 @@ Qed.
 Ltac fwd1 :=
   match goal with
   | H : bindM _ _ _ = (_, _) |- _ =>
-      apply bind_inv in H; destruct H as [(? & ? & ? & H) | (? & ? & ->)]
+      apply bind_inv in H; destruct H as [(? & ? & ? & H) | (? & ? & ?)]
+  | H : ?r = Er _ |- _ => is_var r; subst r
+  | H : ?r = Ok _ |- _ => is_var r; subst r
   | H : ret _ _ = (_, _) |- _ => apply ret_inv in H; destruct H as [? ?]; subst
   | H : fail _ _ = (_, _) |- _ => apply fail_inv in H; destruct H as [? ?]; subst
   | H : crash _ _ = (_, _) |- _ => apply crash_inv in H; destruct H as [? ?]; subst
